@@ -298,7 +298,9 @@ func c18R1(r *Report) {
 				}
 				calls, _ := p.callSitesOf(g)
 				for _, cs := range calls {
-					r.Check(enclosingNamed(cs.Parent()).Name() == sp[1], "R1", "webseed."+sp[0]+"/called-from/"+fname(cs.Parent()), cs.Pos(), "called by its fetcher", "webseed."+sp[0]+" is called from "+fname(cs.Parent())+": a web-seed contact outside the gated fetcher")
+					fetcher := p.Func("tor", sp[1])
+					owner := enclosingNamed(cs.Parent())
+					r.Check(owner.Name() == sp[1] || (fetcher != nil && relPkg(owner) == "tor" && p.inUnitOf(owner, fetcher)), "R1", "webseed."+sp[0]+"/called-from/"+fname(cs.Parent()), cs.Pos(), "called by its fetcher", "webseed."+sp[0]+" is called from "+fname(cs.Parent())+": a web-seed contact outside the gated fetcher")
 				}
 			}
 		}
